@@ -98,6 +98,9 @@ const (
 	ovDUP1           = 0x80
 	ovDUP2           = 0x81
 	ovDUP3           = 0x82
+	ovAND = 0x16
+	ovSHA3           = 0x20
+	ovSHL            = 0x1b
 	ovDUP6           = 0x85
 	ovLOG0           = 0xa0
 	ovLOG1           = 0xa1
@@ -406,13 +409,14 @@ func olvmProxyCode() []byte {
 
 // factory: calldata = mode(1) salt(32) value(32) initcode...
 // 1 CREATE 2 CREATE2 3 CREATE2 + call child 4 CREATE then REVERT 5 CREATE2, child.kill(caller), CREATE2 again
-// 6 CREATE2 twice. Slot 0 = (last) created address, slot 3 = second address, slot 2 = call result + 1, slot 9 = counter.
+// 6 CREATE2 twice 7 pay `value` to the address the CREATE2 child will get, then CREATE2 it there (without endowment).
+// Slot 0 = (last) created address, slot 3 = second address, slot 2 = call result + 1, slot 9 = counter.
 func olvmFactoryCode() []byte {
 	a := newOlvmAsm()
 	a.push(65).op(ovCALLDATASIZE, ovLT).jumpi("stop")
 	a.push(65).op(ovCALLDATASIZE, ovSUB)             // [isz]
 	a.op(ovDUP1).push(65).push(0).op(ovCALLDATACOPY) // mem[0..isz] = init code
-	a.sel().caseOf(1, "create").caseOf(2, "create2").caseOf(3, "c2call").caseOf(4, "crev").caseOf(5, "c2kill").caseOf(6, "c2twice")
+	a.sel().caseOf(1, "create").caseOf(2, "create2").caseOf(3, "c2call").caseOf(4, "crev").caseOf(5, "c2kill").caseOf(6, "c2twice").caseOf(7, "payc2")
 	a.label("stop").op(ovSTOP)
 	create := func() { a.op(ovDUP1).push(0).arg(1).op(ovCREATE) }          // [isz addr]
 	create2 := func() { a.arg(0).op(ovDUP2).push(0).arg(1).op(ovCREATE2) } // [isz addr]
@@ -456,6 +460,19 @@ func olvmFactoryCode() []byte {
 	a.op(ovPOP)
 	create2()
 	rec(3)
+	a.op(ovSTOP)
+	// payc2: child address = keccak(0xff ++ self ++ salt ++ keccak(init))[12:], computed at 0x8000
+	a.label("payc2").op(ovPOP) // [isz]
+	a.push(0xff).push(0x8000).op(ovMSTORE8)
+	a.op(ovADDRESS).push(96).op(ovSHL).push(0x8001).op(ovMSTORE)
+	a.arg(0).push(0x8015).op(ovMSTORE)
+	a.op(ovDUP1).push(0).op(ovSHA3).push(0x8035).op(ovMSTORE)
+	a.push(85).push(0x8000).op(ovSHA3)
+	a.pushB(bytes.Repeat([]byte{0xff}, 20)).op(ovAND)                   // [isz addr]
+	a.push(0).push(0).push(0).push(0).arg(1).op(ovDUP6, ovGAS, ovCALL) // pay the future child
+	a.op(ovPOP, ovPOP)                                                  // [isz]
+	a.arg(0).op(ovDUP2).push(0).push(0).op(ovCREATE2)                   // [isz child]
+	rec(0)
 	a.op(ovSTOP)
 	return a.bytes()
 }
@@ -1474,6 +1491,14 @@ func (st *olvmState) factoryOps(c *Ctx, v *olvmView, s *olvmSender) []Tx {
 		return send(5, init, "OLVM/create2-kill-create2")
 	case r < 14:
 		track(c2, true)
+		if c.Rng.Intn(2) == 0 {
+			// value sent to the address first, contract created there afterwards, in one transaction
+			endow = olvmSmall(c)
+			if v.bal(f.Addr).Cmp(endow) < 0 {
+				txValue = endow
+			}
+			return send(7, init, "OLVM/pay-then-create2")
+		}
 		return send(6, init, "OLVM/create2-twice")
 	case r < 15:
 		bad := [][]byte{
